@@ -10,6 +10,7 @@ CONSTANTS
   MaxFields = 1
   DiscSet <- DiscsQuick
   PayloadSet = {"P", "bool", "opt", "unit", "nz"}
+  TraitSetsC04 <- TraitSetsOrd
   ReprSet = {"none", "u8", "i16", "isize", "i8", "C", "C, u8", "align(8)"}
   Vals = {0, 1}
 INVARIANTS ImplMeetsDecl ImplMeetsProp CrossVariantByDisc VariantOrderTotal
